@@ -1,82 +1,9 @@
-import Generated.Facts
-import SlimModel.Slim
-import SlimModel.Scan
-import SlimModel.Index
-import SlimModel.Version
-import SlimModel.WireSchema
-/-
-  SlimProps.Bridge — tie 1: every fact regenerated from /repo's working tree
-  (lean/Generated/Facts.lean, written by harness/cmd/extract on every run) is equated with the
-  parameter the model uses.  `lake build` re-proves these on every run; a changed constant,
-  version list, operator, guard, tag or write set breaks the obligation.
-
-  Facts that are canonical source text of small pure functions are compared with the text the
-  model was written against; the model definition that mirrors the text is named beside it.
--/
-namespace Bridge
-
-/-! ### constants of trie/slimtrie.go -/
-theorem wordSize : Generated.wordSize = 4 * wordSize false := rfl          -- 4-bit word = 1 half-byte
-theorem bigWordSize : Generated.bigWordSize = 4 * _root_.wordSize true := rfl
-theorem innerSize : Generated.innerSize = Slim.innerSize := rfl
-theorem bigInnerSize : Generated.bigInnerSize = Slim.bigInnerSize := rfl
-theorem innerSize_def : Generated.innerSize = 2 ^ Generated.wordSize + 1 := rfl
-theorem bigInnerSize_def : Generated.bigInnerSize = 2 ^ Generated.bigWordSize + 1 := rfl
-theorem maxShortSize : Generated.maxShortSize = Slim.maxShortSize := rfl
-theorem minPrefix : Generated.minPrefix = 0 := rfl                         -- the model has no minPrefix branch
-theorem maxWordSize_covers_byte : 8 < Generated.maxWordSize := by decide  -- prefCounts[8-(ws&7)] is in range
-
-/-! ### newSlim -/
-/-- `keys[i] >= keys[i+1]` rejects: accepted lists are strictly ascending (`strictAsc`, `bytesLt`) -/
-theorem orderCheckOp : Generated.orderCheckOp = ">=" := rfl
-/-- `prefCnt > 10` (`buildStep`: `decide (prefCnt … > 10)`) -/
-theorem bigThreshold : (Generated.bigThresholdOp, Generated.bigThreshold) = (">", 10) := rfl
-/-- the 16-bit step guard (`buildStep`: `!c.opt.inner && decide (ws - o.fb > 0xffff)`; positions / 4) -/
-theorem stepGuard :
-    Generated.stepGuard = "!*opt.InnerPrefix && (wordStart-o.fromKeyBit)>>2 > 0xffff" := rfl
-/-- the comparator of `sortedBMCounts` (`Slim.insertSorted`: count desc, bitmap desc) -/
-theorem bmCountOrder : Generated.bmCountOrder =
-    "{ if ss[i].cnt == ss[j].cnt { return ss[i].bitmap17 > ss[j].bitmap17 } return ss[i].cnt > ss[j].cnt }" := rfl
-
-/-! ### queries (the small pure functions `encStep`, `decStep`, `getLabelIdxOfKey`, `GetI8..64` are tied
-    SEMANTICALLY in SlimProps/BridgeSem.lean: translated by harness/cmd/extract/translate.go, proved equal to
-    the model's definitions for all arguments) -/
-/-- the refusal guard of `getGEPath` (`Slim.view.scanOK`) -/
-theorem scanGuard : Generated.scanGuard =
-    "st.inner.InnerPrefixes == nil || st.inner.InnerPrefixes.PositionBM == nil || st.inner.LeafPrefixes == nil" := rfl
-
-/-! ### package index (`Index.get` / `Index.rangeGet` / `Index.new`) -/
-theorem indexGetCalls : Generated.indexGetCalls = ["si.SlimTrie.Get", "si.DataReader.Read"] := rfl
-theorem indexRangeGetCalls : Generated.indexRangeGetCalls = ["si.SlimTrie.RangeGet", "si.DataReader.Read"] := rfl
-theorem indexNewSlimTrieArgs : Generated.indexNewSlimTrieArgs = ["encode.I64{}", "keys", "offsets"] := rfl
-
-/-! ### C11: no write to shared state on any read path -/
-theorem readPathWrites : Generated.readPathWrites = [] := rfl
-
-/-! ### C20: the caller's buffer is only handed to `bytes.NewReader`; options are copied first -/
-theorem unmarshalBufUses : Generated.unmarshalBufUses = ["bytes.NewReader(buf)", "bytes.NewReader(buf)"] := rfl
-theorem newSlimTrieOptFlow : Generated.newSlimTrieOptFlow =
-    ["opt := Opt{}", "opt = opts[0]", "normalizeOpt(&opt)", "ns, err := newSlim(keys, vals, &opt)",
-     "newSlim(keys, vals, &opt)"] := rfl
-
-/-! ### versions (C07): the compatible set and the three dispatch predicates of `Unmarshal` -/
-theorem slimtrieVersion : Generated.slimtrieVersion = Version.slimtrieVersion := rfl
-theorem compatibleVersions : Generated.compatibleVersions = Version.compatibleSpecs := rfl
-theorem unmarshalCurrentSpec : Generated.unmarshalCurrentSpec = Version.currentLayoutSpecs := rfl
-theorem unmarshalBefore000512Spec : Generated.unmarshalBefore000512Spec = Version.before000512Specs := rfl
-theorem before000510Spec : Generated.before000510Spec = Version.before000510Specs := rfl
-
-/-! ### protobuf struct tags (C05, C06): field numbers, wire types, packedness -/
-def tagStr (msg : String) (t : Wire.FieldTag) : String :=
-  msg ++ "." ++ t.name ++ "=" ++ toString t.num ++ "," ++ t.wire ++ "," ++ (if t.packedRep then "rep,packed" else "opt")
-
-def modelTags : List String :=
-  Wire.array32Schema.map (tagStr "Array32") ++ Wire.bitmapSchema.map (tagStr "Bitmap") ++
-  Wire.bitsSchema.map (tagStr "Bits") ++ Wire.slimSchema.map (tagStr "Slim") ++
-  Wire.vlenArraySchema.map (tagStr "VLenArray")
-
-/-- every tag in the Go source is a tag of the model's schema tables and vice versa -/
-theorem protoTags : (∀ t ∈ Generated.protoTags, t ∈ modelTags) ∧ (∀ t ∈ modelTags, t ∈ Generated.protoTags) := by
-  decide
-
-end Bridge
+import SlimProps.Bridge.Consts
+import SlimProps.Bridge.NewSlim
+import SlimProps.Bridge.Scan
+import SlimProps.Bridge.Index
+import SlimProps.Bridge.C11
+import SlimProps.Bridge.C20
+import SlimProps.Bridge.Versions
+import SlimProps.Bridge.Tags
+/- SlimProps.Bridge — umbrella of the per-group tie-1 modules (SlimProps/Bridge/*.lean). -/
